@@ -91,6 +91,9 @@ type cronHarness struct {
 	ctrl   *sim.Clients // writes status like the jobconfig controller would
 	worker *croncontroller.CronWorker
 	rec    *cronRec
+	// cache reads of the current tick (every pop looks the JobConfig up): a second progress
+	// measure for Work(), which after all may loop without ever reading the clock
+	cacheReads, cacheBudget int
 }
 
 func newCronHarness(start time.Time, cronCfg *configv1alpha1.CronExecutionConfig) *cronHarness {
@@ -123,6 +126,12 @@ func (h *cronHarness) boot() error {
 	for _, inf := range h.ctx.Inf.All() {
 		inf.Split = false
 	}
+	h.ctx.Inf.SetOnRead(func(sim.Kind, string, interface{}, bool) {
+		h.cacheReads++
+		if h.cacheBudget > 0 && h.cacheReads > h.cacheBudget {
+			panic(livelock{h.cacheReads})
+		}
+	})
 	cctx := croncontroller.NewContext(h.ctx)
 	croncontroller.NewInformerWorker(cctx, croncontroller.NewUpdateHandler(cctx)).Init()
 	for _, inf := range h.ctx.Inf.All() {
@@ -146,9 +155,10 @@ func (h *cronHarness) tick(budget int) (got []cronReq, first time.Time, ok bool)
 	h.rec.got = nil
 	h.clk.Reads = 0
 	if budget <= 0 {
-		budget = 500000 // a frozen clock is read a few times per request: far beyond this means Work() does not return
+		budget = 60000 // a frozen clock is read a few times per request: far beyond this means Work() does not return
 	}
 	h.clk.Budget = budget
+	h.cacheReads, h.cacheBudget = 0, 40000
 	first = h.clk.T
 	ok = true
 	func() {
@@ -164,6 +174,7 @@ func (h *cronHarness) tick(budget int) (got []cronReq, first time.Time, ok bool)
 		h.worker.Work()
 	}()
 	h.clk.Budget = 0
+	h.cacheBudget = 0
 	return h.rec.got, first, ok
 }
 
